@@ -4,6 +4,7 @@ package snaps
 
 import (
 	"os"
+	"strings"
 
 	"github.com/gkampitakis/ciinfo"
 	"github.com/gkampitakis/go-snaps/internal/vxrt"
@@ -191,4 +192,32 @@ func H_C05_emptydir() {
 	opts := CleanOpts{Sort: vxrt.Bool("sort")}
 	Clean(nil, opts)
 	vxrt.Assert(vxrt.FSStamp() == stamp, "C05:clean-leaves-empty-directory-alone")
+}
+
+// H_C05_nearmiss: values of UPDATE_SNAPS that merely resemble `true` and `clean` (other case,
+// surrounding blanks, other words for yes) give no permission: a mismatch fails and rewrites
+// nothing, and Clean reports the stale items and removes nothing.
+func H_C05_nearmiss() {
+	vxrt.CI(false)
+	vxrt.EnvFixed("NO_COLOR", "1")
+	env := []string{"Clean", "clean ", " clean", "CLEAN", "TRUE", "True", "true ", "1", "yes", "cleanup"}[vxrt.Choice("UPDATE_SNAPS", 10)]
+	vxrt.EnvFixed("UPDATE_SNAPS", env)
+	vxrt.Flag("test.run", "")
+	vxrt.Flag("test.count", "1")
+	dir := vxrt.Dir() + "/__snapshots__"
+	content := vxFrame("TestA - 1", "a") + vxFrame("TestA - 2", "stale entry")
+	vxWriteFile(dir+"/f_test.snap", content)
+	vxWriteFile(dir+"/old_test.snap", vxFrame("TestOld - 1", "stale file"))
+	vxrt.TestSources(vxrt.Dir()+"/f_test.go", "TestA")
+	vxrt.TestSources(vxrt.Dir()+"/old_test.go", "TestOld")
+	c := WithConfig(Dir(dir), Filename("f_test"))
+	t := vxNewT("TestA")
+	c.MatchSnapshot(t, "another value")
+	t.end()
+	vxrt.Assert(len(t.errors) == 1 && len(t.logs) == 0, "C05:mismatch-fails-when-update-forbidden")
+	stamp := vxrt.FSStamp()
+	Clean(nil)
+	out := vxrt.Stdout()
+	vxrt.Assert(vxrt.FSStamp() == stamp && vxReadFile(dir+"/f_test.snap") == content, "C05:clean-deletes-only-in-clean-mode")
+	vxrt.Assert(strings.Contains(out, vxBullet+"TestA - 2\n") && strings.Contains(out, "old_test.snap\n"), "C09:stale-entry-reported")
 }
